@@ -139,12 +139,12 @@ PROPS = {
     },
     'C20': {
         'vo': ['Codec.vo', 'Base64Defs.vo', 'WireDefs.vo', 'CorrComp.vo', 'CorrCodec.vo'],
-        'sites': ['g_pk_decode_exact'],
+        'sites': ['g_pk_decode_exact', 'g_pre_block', 'g_pre_vote', 'g_pre_qc', 'g_pre_timeout', 'g_pre_tc_entry'],
         'corr': [{'name': 'wire', 'bin': 'codec', 'mode': 'wire', 'emit': 'codec_wire', 'quick': 150, 'thorough': 3000, 'layout': wire_layout},
                  {'name': 'malformed', 'bin': 'codec', 'mode': 'malformed', 'emit': 'codec_malformed', 'quick': 150, 'thorough': 3000, 'layout': malformed_layout_nomon}],
         'rule': CODEC_RULE,
         'assumptions': ['SHA-512/256 collision resistance on the modelled pre-images', 'bincode 1.3 default options and serde derive layouts as modelled (checked byte for byte by the correspondence)',
-                        'digest pre-image layouts are hand-written from messages.rs `impl Hash` (compared with the real digest() on every case), not regenerated'],
+                        'digest pre-image layouts are regenerated from the hasher.update sequences of messages.rs and pinned equal to the model\'s pre_* functions'],
     },
     'C18': {
         'vo': ['Codec.vo', 'Base64Defs.vo', 'WireDefs.vo', 'CorrComp.vo', 'CorrCodec.vo'],
@@ -195,13 +195,13 @@ PROPS['C06'] = {
 }
 PROPS['C13'] = {
     'vo': NODE_VO + ['MempoolSyncDefs.vo', 'PipelineDefs.vo', 'ReceiveDefs.vo', 'CorrPipeline.vo', 'BatchMakerDefs.vo', 'QuorumWaiterDefs.vo'],
-    'sites': ['g_batch_full', 'g_timer_seals', 'g_qw_threshold'],
+    'sites': ['g_batch_full', 'g_timer_seals', 'g_qw_threshold', 'g_ms_gc_skip', 'g_ms_gc_round', 'g_ms_gc_keep', 'g_ms_retry_due'],
     'corr': [{'name': 'msync', 'bin': 'pipeline', 'mode': 'msync', 'emit': 'msync', 'quick': 60, 'thorough': 1000, 'agree': [1, 2], 'monitors': [3, 4], 'timeout': 600},
              {'name': 'mhelper', 'bin': 'pipeline', 'mode': 'mhelper', 'emit': 'mhelper', 'quick': 60, 'thorough': 1000, 'agree': [1], 'monitors': [2, 3, 4, 5], 'timeout': 600},
              {'name': 'e2e', 'bin': 'pipeline', 'mode': 'e2e', 'emit': 'e2e', 'quick': 40, 'thorough': 400, 'agree': [1], 'monitors': [2, 3, 4, 5, 6, 7, 8, 9], 'timeout': 900}],
     'rule': 'msync: the REAL mempool Synchronizer task against its model on seeded Synchronize/arrival/Cleanup/retry-tick sequences; mhelper: the REAL mempool Helper on stored batches, consensus blocks, junk, unknown digests and origins; '
             'e2e: a REAL Mempool::spawn on loopback TCP + MempoolDriver/PayloadWaiter on one store with the tap standing for the peers: transactions -> sealed batch -> quorum -> stored -> announced; block with a missing batch -> Synchronize -> BatchRequest -> batch arrives -> block released',
-    'assumptions': ['PARTIAL: that ALL honest nodes commit under arbitrary load and delays is liveness (see C06) and is not proved', 'the three synchronizer expressions (gc skip/keep, retry due) are hand-written from the source (quoted), not regenerated',
+    'assumptions': ['PARTIAL: that ALL honest nodes commit under arbitrary load and delays is liveness (see C06) and is not proved', 'the synchronizer expressions (gc skip/round/keep, retry due) are regenerated from mempool/src/synchronizer.rs',
                     'one real node is driven; two real nodes wired together are covered only by composition in Coq (c13_sync_completes)', 'SHA-512 not modelled'],
     'anchors': ['mempool/src/', 'consensus/src/mempool.rs', 'consensus/src/proposer.rs'],
 }
